@@ -154,6 +154,9 @@ class WakePotential(EFMethod):
         b, x, i, k = cx.g('b'), cx.g('x'), cx.g('i'), cx.g('k')
         log = cx.ex.fft_log
         out = []
+        if cx.ex.unit != self.short() and not cx.ex.unit.startswith(self.short()):
+            # call-site view (another unit is being verified): frame only; the functional posts above are used through C06
+            return [('frame', {'C12', 'C18'}, And(cx.arr('this._phasespace._projection') == cx.old.arr('this._phasespace._projection')))]
         if len(log) != 2 or log[0][0] != 'r2c' or log[1][0] != 'c2r':
             return [('transforms', {'C06'}, z3.BoolVal(False))]
         pad_in = log[0][1]
@@ -176,6 +179,9 @@ class WakePotential(EFMethod):
                 ('frame', {'C12', 'C18'}, And(cx.arr('this._phasespace._projection') == cx.old.arr('this._phasespace._projection'),
                                                cx.arr('this._impedance._data', 're') == cx.old.arr('this._impedance._data', 're')))]
         return out
+
+    def result(self, cx):
+        return PtrV(cx.R('this._wakepotential'), I(0))
 
     def _inv_i(self, cx):
         nmax = cx.f('this._nmax', 'u64')
